@@ -85,6 +85,7 @@ fn v1_err(e: &v1::ParseError, wrap: &str, inc: bool, cmp: bool) -> Value {
         "inc": inc,
         "cmp": cmp,
         "dbg": format!("{:?}", e),
+        "fmt_ok": guard(|| fmt_all(e, 40)).is_ok(),
         "msg": guard(|| e.to_string()).unwrap_or_else(|p| format!("PANIC {}", p)),
     })
 }
@@ -110,9 +111,30 @@ fn v1_bin_err(e: &v1::BinaryParseError, inc: bool, cmp: bool) -> Value {
             "cmp": cmp,
             "dbg": format!("{:?}", u),
             "msg": e.to_string(),
+            "fmt_ok": guard(|| fmt_all(e, 40)).is_ok(),
         }),
         _ => json!({"k": "err", "e": "OtherError", "w": "Other", "inc": inc, "cmp": cmp, "einc": e.is_incomplete(), "ecmp": e.is_complete(), "dbg": format!("{:?}", e), "msg": e.to_string()}),
     }
+}
+
+/// Formats a value through `Display` with every precision 0..=n+2 and a few width / fill / flag
+/// combinations, and through `Debug` (plain and pretty). Returns normally or panics (the caller
+/// guards): nothing is expected of the text, only that formatting returns.
+pub fn fmt_all<T: std::fmt::Display + std::fmt::Debug>(x: &T, n: usize) -> bool {
+    let mut total = 0usize;
+    for p in 0..=(n + 2) {
+        total += format!("{:.*}", p, x).len();
+    }
+    total += format!("{:>w$}", x, w = n + 9).len();
+    total += format!("{:<3}", x).len();
+    total += format!("{:^50.5}", x).len();
+    total += format!("{:*^9.2}", x).len();
+    total += format!("{:#}", x).len();
+    total += format!("{:+}", x).len();
+    total += format!("{:010.4}", x).len();
+    total += format!("{:?}", x).len();
+    total += format!("{:#?}", x).len();
+    total < usize::MAX
 }
 
 /// The views of a v1 header. Every accessor runs under its own panic guard.
@@ -133,7 +155,7 @@ fn v1_views(h: &v1::Header) -> Value {
         Ok(b) => json!({"k": "ok", "v": flat(&b)}),
         Err(p) => panic_value(&p),
     };
-    let dbg = guard(|| format!("{:?}", h)).is_ok();
+    let dbg = guard(|| fmt_all(h, h.header.len()) && fmt_all(&h.addresses, 90)).is_ok();
     json!({"protocol": protocol, "astr": astr, "disp": disp, "adisp": adisp, "dbg_ok": dbg,
            "hdr": flat(h.header.as_bytes())})
 }
@@ -369,6 +391,7 @@ pub fn v2_err(e: &v2::ParseError) -> Value {
         _ => ("OtherError", 0, 0),
     };
     json!({"k": "err", "e": name, "a": a, "b": b, "einc": e.is_incomplete(), "ecmp": e.is_complete(),
+           "fmt_ok": guard(|| fmt_all(e, 40)).is_ok(),
            "msg": guard(|| e.to_string()).unwrap_or_else(|p| format!("PANIC {}", p))})
 }
 
@@ -466,7 +489,7 @@ fn v2_views(h: &v2::Header) -> Value {
         put("tlvs_empty", guard(|| json!(h.tlvs().is_empty())))?;
         put("tlvs_bytes_eq", guard(|| json!(h.tlvs().as_bytes() == h.tlv_bytes())))?;
         put("disp", guard(|| json!(h.to_string())))?;
-        put("dbg_ok", guard(|| json!(!format!("{:?}", h).is_empty())))?;
+        put("dbg_ok", guard(|| json!(fmt_all(h, 80) && !format!("{:?} {:#?}", h.addresses, h.addresses).is_empty())))?;
         put("walk", guard(|| tlv_walk(h.tlvs(), tb_len + 6, 2)))?;
         Ok(())
     })();
